@@ -13,7 +13,9 @@ Oracle (searches for a failing input once something differs, and always runs):
 """
 from common import compare, load_corpus
 
-RULE = ("W: op sequences (is_valid/strike_out) drawn relative to the live window edge "
+RULE = ("restart: the real FilesystemSecurityContext over process lifetimes (kill / clean stop / reload, "
+        "replays before and after), judged by the oracle (model side: C13's persistence model); "
+        "W: op sequences (is_valid/strike_out) drawn relative to the live window edge "
         "(inside, below, just above, far above) for sizes 1..64; U: arrival sequences "
         "(seq, authentic?, echo?) through the real unprotect. A case is non-trivial when at "
         "least one number is accepted and one refused; distinct by full op sequence.")
@@ -272,11 +274,103 @@ def run(env, rep):
         if v:
             rep.oracle_fail(case, v, key="unprotect:" + v.split(" ")[0] + ":" + v.split(" ")[-1])
     compare(env, rep, ucases, lines, impl, what="unprotect")
+    run_restarts(env, rep)
     if rep.hist.get("U:outcome=A", 0) == 0 or rep.hist.get("U:outcome=R", 0) == 0:
         rep.notes.append("generator produced no accepted or no refused arrival")
 
 
+# --- restarts: the same security context (directory) across process lifetimes ---------------
+
+def restart_cases(env):
+    """load, accept some requests, stop (kill / clean), reload, replay and continue"""
+    rng = env.rng
+    cases = []
+    fixed = [
+        ["L7", "R5:1:-", "R6:1:-", "K", "L8", "R5:1:-", "R6:1:-", "R7:1:-", "R8:1:8", "R5:1:-", "R9:1:-"],
+        ["L7", "R1:1:-", "K", "L8", "R1:1:-", "R2:1:8", "R1:1:-", "R2:1:8", "R3:1:-"],
+        ["L7", "R0:1:-", "R1:1:-", "R2:1:-", "K", "L8", "R1:1:-", "R2:1:-", "R0:1:-"],
+        ["L7", "R3:1:-", "S", "L8", "R3:1:-", "R4:1:-", "K", "L9", "R4:1:-", "R3:1:-"],
+        ["L7", "R3:1:-", "P", "R4:1:-", "K", "L8", "R3:1:-", "R4:1:-"],
+    ]
+    for ev in fixed:
+        cases.append({"events": ev})
+    for _ in range(env.scale(60, 1500)):
+        # an honest peer never uses a sequence number for two different requests: a replay is
+        # the identical datagram (same inner Echo option); new requests take new numbers
+        ev = ["L7"]
+        echo = 7
+        sent = {}            # seq -> echo field of the (one) request with that number
+        top = 0
+        for life in range(rng.randrange(2, 4)):
+            for _ in range(rng.randrange(1, 7)):
+                if sent and rng.random() < 0.35:
+                    seq = rng.choice(sorted(sent))
+                else:
+                    seq = top + rng.randrange(0, 4)
+                    e = rng.random()
+                    sent[seq] = str(echo) if e < 0.25 else ("-" if e < 0.9 else str(echo - 1))
+                top = max(top, seq + 1)
+                ev.append(f"R{seq}:{1 if rng.random() < 0.85 else 0}:{sent[seq]}")
+                if rng.random() < 0.15:
+                    ev.append("P")
+            ev.append(rng.choice(["K", "K", "S"]))
+            echo += 1
+            ev.append(f"L{echo}")
+        for _ in range(rng.randrange(1, 5)):
+            seq = rng.choice(sorted(sent))
+            ev.append(f"R{seq}:1:{sent[seq]}")
+        cases.append({"events": ev})
+    return cases
+
+
+def oracle_restart(log):
+    accepted = {}
+    last_stop = None
+    accepted_in_prev = False
+    echo_seen = True
+    cur = None
+    for o in log:
+        if o["ev"] == "L" and o.get("res") == "l" and not o.get("second_process"):
+            cur = o["lifetime"]
+            echo_seen = not (last_stop == "unclean" and accepted_in_prev)
+            accepted_in_prev = False
+        if o.get("stop"):
+            last_stop = o["stop"]
+        if o["ev"] == "R" and str(o.get("res", "")).startswith("A"):
+            seq = o["seq"]
+            if seq in accepted:
+                return (f"sequence number {seq} accepted in lifetime {accepted[seq]} and again in "
+                        f"lifetime {o['lifetime']}")
+            accepted[seq] = o["lifetime"]
+            accepted_in_prev = True
+            if o["res"].startswith("Ae"):
+                echo_seen = True
+            elif not echo_seen:
+                return (f"after an unclean stop request {seq} was accepted in lifetime {o['lifetime']} "
+                        f"without a fresh Echo exchange")
+    return ""
+
+
+def run_restarts(env, rep):
+    from props import C13 as c13
+    runner = c13.Runner(env)
+    for case in [c["restart"] for _, c in load_corpus("C12") if "restart" in c] + restart_cases(env):
+        tokens, log = runner.run(case)
+        outs = "".join(str(o.get("res", ""))[:1] for o in log if o["ev"] == "R")
+        rep.case({"kind": "restart", "events": case["events"]},
+                 nontrivial=("A" in outs and len(set(outs)) > 1), sample_every=500)
+        rep.count("restart:stops=" + str(sum(1 for o in log if o.get("stop"))))
+        v = oracle_restart(log)
+        if v:
+            rep.oracle_fail({"kind": "restart", "events": case["events"]}, v,
+                            key="restart:" + v.split(" ")[0] + ":" + v.split(" ")[-2])
+
+
 def replay(env, case):
+    if case.get("kind") == "restart":
+        from props import C13 as c13
+        tokens, log = c13.Runner(env).run({"events": case["events"]})
+        return oracle_restart(log)
     aiocoap = env.import_repo(shims=True)
     import aiocoap.oscore as oscore
     import oscore_util
